@@ -243,14 +243,18 @@ def programs(tier, seed):
         nA, nB = rng.randint(1, 8), rng.randint(1, 8)
         nC = rng.randint(1, 4) if rng.random() < 0.4 else 0
         specs.append((nA, nB, nC, modes[k % len(modes)], k % 2 == 0))
-    # around the 512-element split (the split applies to the *defined* combinations)
-    specs.append((23, 23, 0, "all", rng.random() < 0.5))   # 529 defined: odd, above the split
+    # around the split of large aggregates (it applies to the *defined* combinations; the library
+    # splits above 256 since the fix for clang's template depth, 512 before)
+    specs.append((23, 23, 0, "all", rng.random() < 0.5))   # 529 defined: odd, split twice
+    specs.append((16, 32, 0, "all", rng.random() < 0.5))   # 512 defined: a std::tuple of 507-512 elements is beyond clang's default depth
     if tier != "quick":
         specs.append((23, 23, 0, "most", True))             # about 513 defined
     if tier != "quick":
-        specs.append((23, 22, 0, "all", True))      # 506: just below
-        specs.append((16, 32, 0, "all", False))     # 512: exactly at the limit
-        specs.append((19, 27, 0, "all", True))      # 513: one above
+        specs.append((23, 22, 0, "all", True))      # 506
+        specs.append((16, 16, 0, "all", False))     # 256: exactly at the limit
+        specs.append((257, 1, 0, "all", True))      # 257: one above
+        specs.append((17, 15, 0, "all", False))     # 255: one below
+        specs.append((19, 27, 0, "all", True))      # 513
         specs.append((33, 33, 0, "all", False))     # 1089: split twice
         specs.append((33, 33, 0, "most", True))     # ~1056 defined
         specs.append((32, 32, 0, "all", True))      # 1024: two halves of exactly 512
@@ -262,5 +266,5 @@ def programs(tier, seed):
         big = nA * nB * max(nC, 1) > 400
         marking = markings[n % 3] if not big else "conditional"
         out.append(make_program("c20-s%d-p%d" % (seed, n), seed * 100 + n, nA, nB, nC, mode, nested,
-                                ["clang-asan"] if not big or tier == "quick" else (["clang-asan"] if n % 2 else ["gcc-rel"]), marking))
+                                ["clang-asan"] if not big or tier == "quick" else (["clang-asan"] if n % 2 else ["clang-asan-ndebug", "gcc-rel"]), marking))
     return out
